@@ -33,6 +33,15 @@ def world(d, kind):
         fsutil.make_file(os.path.join(d, "allhole"), 1 << 20, [], tag=8, sync=True)
         os.mkdir(os.path.join(d, "dst"))
         return ["tail", "allhole", "dst/"], [("tail", "dst/tail"), ("allhole", "dst/allhole")]
+    if kind == "glob":
+        # sources selected by a pattern whose expansion lists several directories: a directory that cannot be listed at
+        # that moment is a failed step like any other (it is reported by the expansion, before any driver thread exists)
+        for sub, body in (("a", b"A" * 3000), ("b", b"B" * 5000), ("c", b"C" * 10)):
+            os.makedirs(os.path.join(d, "src", sub))
+            w("src/%s/f_%s.dat" % (sub, sub), body)
+            w("src/%s/other.txt" % sub, b"not selected")
+        os.mkdir(os.path.join(d, "dst"))
+        return ["--glob", "src/*/*.dat", "dst/"], [("src/%s/f_%s.dat" % (x, x), "dst/f_%s.dat" % x) for x in "abc"]
     if kind == "tree":
         os.makedirs(os.path.join(d, "src", "sub", "deep"))
         os.mkdir(os.path.join(d, "dst"))
@@ -110,7 +119,7 @@ def run(ctx, out):
     quick = ctx.tier == "quick"
     sup = core.build_sup()
     out.rule = ("for small copies (single file with mode/mtime/xattr, overwrite with numbered backup, tree with nested dirs, link, "
-                "FIFO) and both drivers, with --block-size 16KB and (file, tree) with --no-progress -v: a reference trace, then one run per (system call touching the sandbox) x errno from {EIO "
+                "FIFO, three files selected by a --glob pattern spanning three directories) and both drivers, with --block-size 16KB and (file, tree) with --no-progress -v: a reference trace, then one run per (system call touching the sandbox) x errno from {EIO "
                 "ENOSPC EACCES EMFILE EROFS EEXIST EPERM}, keyed by (syscall, path, n-th occurrence); exit 0 must imply a complete "
                 "and correct destination incl. mode/mtime; thorough adds random pairs of faults. non-trivial = the injection "
                 "fired; distinct = (case, driver, call, errno)")
@@ -119,7 +128,7 @@ def run(ctx, out):
     # option sets: the failure must surface whichever way the configuration routes it (with a progress bar the block
     # size is 16 KB and errors of block jobs travel over the update channel; --no-progress = one block per file, no bar)
     for (kind, optset) in [("file", "std"), ("overwrite-backup", "std"), ("tree", "std"), ("sparse", "std"),
-                           ("file", "noprogress"), ("tree", "noprogress")]:
+                           ("file", "noprogress"), ("tree", "noprogress"), ("glob", "std")]:
         for driver in ("parfile", "parblock"):
             d = os.path.join(d0, "%s_%s_%s" % (kind, driver, optset))
             if optset != "std" and quick and (kind, driver) == ("tree", "parfile"):
